@@ -181,17 +181,23 @@ Definition range_init (s : Z) (e : option Z) : res range :=
   | None => Ok (s, e)
   end.
 
-(* descriptors.serialize_range *)
+(* descriptors.serialize_range (as repaired by fixes/C12-20): a range with a stop must have 0 <= start < stop,
+   otherwise str() of it would not be a byte-range-spec ("bytes=0--1") and the assignment is refused *)
+Definition range_checked (r : range) : res (option str) :=
+  match r with
+  | (s, Some e) => if (0 <=? s)%Z && (s <? e)%Z then Ok (Some (range_str r)) else Raise ValueError
+  | (s, None) => Ok (Some (range_str r))
+  end.
 Definition serialize_range (v : pyv) : res (option str) :=
   match v with
   | PStr [] | PInts [] | PStrs [] => Ok None        (* falsy: '' () [] *)
   | PStr s => Ok (Some s)
   | PInts [Some s; e] =>
       match range_init s e with
-      | Ok r => Ok (Some (range_str r))
+      | Ok r => range_checked r
       | Raise x => Raise x
       end
-  | PRange s e => Ok (Some (range_str (s, e)))
+  | PRange s e => range_checked (s, e)
   | _ => Raise TypeError
   end.
 
@@ -295,9 +301,11 @@ Definition crange_init (s e l : option Z) : res crange :=
   if cr_valid s e l false then Ok (s, e, l) else Raise ValueError.
 
 (* descriptors.serialize_content_range *)
+(* .strip(" \t") as repaired by fixes/C12-19: CR and LF stay, for the header setter to refuse *)
+Definition is_ows (c : N) : bool := (c =? 32) || (c =? 9).
 Definition serialize_content_range (v : pyv) : res (option str) :=
   let finish (t : str) : res (option str) :=
-    match strip_by is_space_str t with [] => Ok None | t' => Ok (Some t') end in
+    match strip_by is_ows t with [] => Ok None | t' => Ok (Some t') end in
   match v with
   | PInts [s; e] => match crange_init s e None with Ok c => finish (crange_str c) | Raise x => Raise x end
   | PInts [s; e; l] => match crange_init s e l with Ok c => finish (crange_str c) | Raise x => Raise x end
